@@ -34,6 +34,7 @@ static void hk_free(void *p) { vf_free(p); }
 #undef free
 #undef realloc
 #include "vf_pstub.h"
+#include "vf_frame.h"
 
 int main(VF_MAIN_ARGS)
 {
@@ -48,6 +49,7 @@ int main(VF_MAIN_ARGS)
 #elif HOOKS == 3
     { cJSON_Hooks h; h.malloc_fn = 0; h.free_fn = hk_free; cJSON_InitHooks(&h); }
 #endif
+    VF_FRAME_BEGIN();
 #if API == 0
     {
         unsigned char *buf; cJSON_bool ok; int len = N; char *arg;
@@ -109,6 +111,7 @@ int main(VF_MAIN_ARGS)
 #endif
     }
 #endif
+    VF_FRAME_END(0);
     VF_AP(7, vf_live == 0, "C07 ledger balanced");
     VF_WITNESS("end");
     return 0;
